@@ -10,3 +10,82 @@ pub fn boundary_len(max: usize) -> impl Strategy<Value = usize> {
         1 => 0..=200usize,
     ]
 }
+
+use crate::engine::Hex;
+use num_bigint::BigUint;
+use num_traits::One;
+
+fn be32(v: &BigUint) -> Vec<u8> {
+    let b = v.to_bytes_be();
+    let mut o = vec![0u8; 32usize.saturating_sub(b.len())];
+    o.extend_from_slice(&b[b.len().saturating_sub(32)..]);
+    o
+}
+
+/// 256-bit values (32 bytes big-endian) biased to the corners that matter for arithmetic
+/// modulo `m`: 0..3, m-4..m+64 (when they fit), powers of two and their predecessors,
+/// boundary-limb patterns, uniform.
+pub fn scalar256(m: &BigUint) -> impl Strategy<Value = Hex> {
+    let m1 = m.clone();
+    let m2 = m.clone();
+    let limb = prop::sample::select(vec![0u64, 1, 1 << 32, 1 << 63, u64::MAX, u64::MAX - 1, 0xFFFF_FFFF]);
+    prop_oneof![
+        2 => (0u64..8).prop_map(|v| Hex(be32(&BigUint::from(v)))),
+        2 => (1u64..=8).prop_map(move |v| Hex(be32(&(&m1 - BigUint::from(v))))),
+        2 => (0u64..=64).prop_map(move |v| { let x = &m2 + BigUint::from(v); Hex(be32(&(x % (BigUint::one() << 256)))) }),
+        2 => (0u32..256).prop_map(|i| Hex(be32(&(BigUint::one() << i)))),
+        2 => (1u32..=256).prop_map(|i| Hex(be32(&((BigUint::one() << i) - BigUint::one())))),
+        3 => prop::array::uniform4(limb).prop_map(|l| { let mut v = Vec::new(); for x in l.iter() { v.extend_from_slice(&x.to_be_bytes()); } Hex(v) }),
+        2 => (0u32..32, 1u8..=255).prop_map(|(i, b)| { let mut v = vec![0u8; 32]; v[31 - i as usize] = b; Hex(v) }),
+        8 => prop::array::uniform32(any::<u8>()).prop_map(|a| Hex(a.to_vec())),
+    ]
+}
+
+/// canonical residues modulo m with the same bias (reduced)
+pub fn residue(m: &BigUint) -> impl Strategy<Value = Hex> {
+    let mm = m.clone();
+    scalar256(m).prop_map(move |h| Hex(be32(&(BigUint::from_bytes_be(&h.0) % &mm))))
+}
+
+/// every value built from boundary limbs that is < m
+pub fn boundary_limb_values(m: &BigUint) -> Vec<BigUint> {
+    let limbs = [0u64, 1, 1 << 32, 1 << 63, u64::MAX];
+    let mut out = Vec::new();
+    for a in limbs {
+        for b in limbs {
+            for c in limbs {
+                for d in limbs {
+                    let v = (((BigUint::from(a) << 64) + BigUint::from(b) << 64) + BigUint::from(c) << 64) + BigUint::from(d);
+                    if &v < m {
+                        out.push(v);
+                    }
+                }
+            }
+        }
+    }
+    out
+}
+
+/// values within +-4 of 0, m, and 2^256 - m, reduced into [0, m)
+pub fn near_values(m: &BigUint, others: &[BigUint]) -> Vec<BigUint> {
+    let r = BigUint::one() << 256;
+    let mut out = Vec::new();
+    let mut centers = vec![BigUint::from(0u32), m.clone(), &r - m];
+    for o in others {
+        centers.push(o.clone());
+        centers.push(&r - o);
+    }
+    for c in centers {
+        for d in 0..=4u32 {
+            out.push((&c + BigUint::from(d)) % m);
+            out.push((&c + m - BigUint::from(d)) % m);
+        }
+    }
+    out.sort();
+    out.dedup();
+    out
+}
+
+pub fn hex32(v: &BigUint) -> Hex {
+    Hex(be32(v))
+}
